@@ -2101,7 +2101,7 @@ func (b *B) fullScanFrom(rule, construct, where string, fc *FC, idx, n *RF, maxF
 	ki, kn := lfc.Recurrence(k)
 	if kn.Equal(k.Sub(s.Int(1))) {
 		// a descending scan: from n-1 down to 0, while 0 <= index
-		return b.fullScanDown(rule, construct, where, lfc, hdr, k, ki, idx, n)
+		return b.fullScanDown(rule, construct, where, lfc, hdr, k, ki, idx, n, maxFirst)
 	}
 	if !kn.Equal(k.Add(s.Int(1))) {
 		b.R.Fail(rule, construct, where, "the counter does not advance by 1 per iteration: "+clip(kn.String(), 80))
@@ -2724,10 +2724,10 @@ func (fc *FC) InvariantEq(expr, want *RF) bool {
 }
 
 // fullScanDown: the descending form of FullScan (index n-1, n-2, …, 0).
-func (b *B) fullScanDown(rule, construct, where string, lfc *FC, hdr *ssa.BasicBlock, k, ki, idx, n *RF) bool {
+func (b *B) fullScanDown(rule, construct, where string, lfc *FC, hdr *ssa.BasicBlock, k, ki, idx, n *RF, skipLast int64) bool {
 	s := b.X.S
 	kat := k.SingleAtom()
-	if first := idx.Subst(map[AtomID]*RF{kat.ID: ki}); !first.Equal(n.Sub(s.Int(1))) && !b.X.EquivByCases(first, n.Sub(s.Int(1)), 0) {
+	if first := idx.Subst(map[AtomID]*RF{kat.ID: ki}); !first.Equal(n.Sub(s.Int(1))) && !b.X.EquivByCases(first, n.Sub(s.Int(1)), 0) && !(skipLast >= 1 && first.Equal(n.Sub(s.Int(2)))) {
 		b.R.Fail(rule, construct, where, "the first index of the descending scan is "+clip(first.String(), 80)+", not "+clip(n.String(), 40)+"-1")
 		return false
 	}
